@@ -34,7 +34,7 @@ G('da.__daisy_add_d', 'date-core', '__daisy_add_d', ARITH, ins=[('dt_daisy_t', '
 G('da.__daisy_add_w', 'date-core', '__daisy_add_w', ARITH, ins=[('dt_daisy_t', 'in_d'), ('int', 'in_n')], call='__daisy_add_w(in_d, in_n)', ret='dt_daisy_t', replace=['__daisy_add_d'])
 
 WINV = ('S_ISOMON1((int)y) + 7 * (w - 1) == S_ISOMON1((int)__CPROVER_loop_entry(y)) + 7 * (__CPROVER_loop_entry(w) - 1) && hang == S_HANG((int)y)')
-GS('da.__ywd_fixup_w', 'date-core', '__ywd_fixup_w', ARITH, [('mid', 'in_w >= 1 && in_w <= 52')] + [('%s.h%d' % (nm, h + 3), '%s && in_hang == %d' % (c, h)) for nm, c in (('bwd', 'in_w < 1'), ('fwd', 'in_w > 52')) for h in range(-3, 4)], ins=[(U, 'in_y'), ('int', 'in_w'), (U, 'in_d'), ('int', 'in_hang')],
+GS('da.__ywd_fixup_w', 'date-core', '__ywd_fixup_w', ARITH, [('bwd', 'in_w < 1'), ('mid', 'in_w >= 1 && in_w <= 52'), ('fwd', 'in_w > 52')], ins=[(U, 'in_y'), ('int', 'in_w'), (U, 'in_d'), ('int', 'in_hang')],
   call='__ywd_fixup_w(in_y, in_w, (dt_dow_t)in_d, in_hang)', ret='dt_ywd_t', replace=['__get_isowk', '__leapp'], solvers=SV, timeout=900,
   loopinv={'__ywd_fixup_w': [
       dict(id=0, inv='y >= 1602 && y <= 4096 && w < 1 && w >= -150000 && ' + WINV + ' && S_ISOMON1((int)y) + 7 * (w - 1) >= -5', dec='y'),
